@@ -79,3 +79,20 @@ def KF_C19_empty_fits_table(div):
     b = div.behaviour
     return (b.get('spec') == 'Export' and b['cfg']['fmt'] == 'fits_table' and b['cfg']['sub'] == 'empty'
             and div.component == 'components' and div.actual == [])
+
+
+def KF_C18_histogram_profile_viewer_restore(div):
+    """Saved histogram / profile viewers cannot be restored: their layer artist paths are redirected to glue_qt (see KF-C12-1)."""
+    b = div.behaviour
+    return (b.get('spec') == 'Viewer' and b.get('viewer') in ('histogram', 'profile') and div.component == 'exception[SaveRestoreViewer]'
+            and isinstance(div.actual, str) and "Module 'glue_qt." in div.actual)
+
+
+def KF_C18_empty_image_viewer_restore(div):
+    """An image viewer whose only dataset left the collection keeps its axis attributes; saving and restoring it fails."""
+    b = div.behaviour
+    if not (b.get('spec') == 'Viewer' and b.get('viewer') == 'image' and div.component == 'exception[SaveRestoreViewer]'
+            and isinstance(div.actual, str) and 'is not in valid choices: []' in div.actual):
+        return False
+    st = b['steps'][div.step]['st']
+    return not [d for d in st['given'] if d in st['coll']]
